@@ -23,7 +23,7 @@ import (
 )
 
 func usage() {
-	fmt.Fprintf(os.Stderr, "usage: gofacts translate [-repo DIR] [-out FILE]\n")
+	fmt.Fprintf(os.Stderr, "usage: gofacts translate [-repo DIR] [-out FILE]\n       gofacts callseq -repo DIR -pkg DIR -func NAME -methods A,B,...\n")
 	os.Exit(2)
 }
 
@@ -54,6 +54,8 @@ func main() {
 			}
 			os.Stdout.WriteString(report)
 		}
+	case "callseq":
+		callseqMain(os.Args[2:])
 	default:
 		usage()
 	}
